@@ -6,7 +6,7 @@ patch="$1"; tier="$2"; shift 2
 cd /repo || exit 2
 if [ -n "$(git status --porcelain --untracked-files=no)" ]; then echo "/repo is not clean" >&2; exit 2; fi
 git apply "$patch" 2>/dev/null || git apply -3 "$patch" 2>/dev/null || git apply -C1 "$patch" || { echo "patch does not apply" >&2; exit 2; }
-trap 'git -C /repo checkout -q -- . ; rm -f /verif/replays/*.json' EXIT
+trap 'git -C /repo reset -q; git -C /repo checkout -q -- . ; rm -f /verif/replays/*.json' EXIT
 cd /verif
 for p in "$@"; do
   s=$(date +%s)
